@@ -68,6 +68,7 @@ type LRec struct {
 	Vals  []string
 	Items [][]string
 	Dup   int // 1+index of a field whose element is emitted twice (xml/json only); 0 = none
+	Short int // number of trailing fields left out of the row (csv / csv2 single-row records only)
 }
 
 // Shape is the logical shape shared by the records of a world.
@@ -358,7 +359,18 @@ func (g *declGen) array(fs []string, intField string, item *ItemModel) D {
 }
 
 func (g *declGen) templateRef(fs []string, intField string) D {
-	name := fmt.Sprintf("tpl%d", g.t.Intn("decl.tpl", 2))
+	name := fmt.Sprintf("tpl%d", g.t.Intn("decl.tpl", 3))
+	if name == "tpl2" {
+		// a template that anchors itself through xpath_dynamic: referenced without an xpath
+		if _, ok := g.templates[name]; !ok {
+			f := g.m.Fields[g.t.Intn("decl.field", len(g.m.Fields))]
+			g.templates[name] = D{"xpath_dynamic": D{"const": f}, "custom_func": D{"name": "lower", "args": []interface{}{D{"xpath": "."}}}}
+		}
+		if len(fs) > 0 && fs[0] == g.m.Fields[0] {
+			return D{"template": name}
+		}
+		name = "tpl0"
+	}
 	if _, ok := g.templates[name]; !ok {
 		// a template without its own xpath, so that references may supply one
 		var body D
